@@ -33,7 +33,7 @@ real_utime = os.utime
 
 ERRNO = {
     "ENOENT": errno.ENOENT, "EACCES": errno.EACCES, "ELOOP": errno.ELOOP,
-    "EIO": errno.EIO, "EMFILE": errno.EMFILE, "ENOSPC": errno.ENOSPC,
+    "EIO": errno.EIO, "EMFILE": errno.EMFILE, "ENXIO": errno.ENXIO, "ENOSPC": errno.ENOSPC,
     "ENOTDIR": errno.ENOTDIR,
 }
 
@@ -141,6 +141,8 @@ class SimFile:
     def write(self, data):
         seam = self._seam
         self._check_dead()
+        if getattr(self, "_swallow", False):
+            return len(data)     # the disk is full: nothing more reaches the file
         seam._yield("write")
         fault = seam._match("write", self._rel, mode="w")
         n = len(data)
@@ -170,6 +172,12 @@ class SimFile:
         if kind == "enospc":
             seam.count("enospc")
             raise _mk_oserror("ENOSPC", self._path)
+        if kind == "enospc_close":
+            # the short write is only reported when the file is closed (buffered tail, NFS, quota)
+            seam.count("enospc")
+            self._pending_close_error = True
+            self._swallow = True
+            return n
         if kind == "crash":
             seam.count("crash_in_write")
             self._dead = True
@@ -197,6 +205,9 @@ class SimFile:
             if self._dirty:
                 self._seam._stamp(self._path, self._created)
         self._seam._yield("close")
+        if getattr(self, "_pending_close_error", False):
+            self._pending_close_error = False
+            raise _mk_oserror("ENOSPC", self._path)
 
     def __del__(self):
         try:
